@@ -305,19 +305,45 @@ def _termination(ctx, rep, eng):
     pm = ctx.imod("ctparse.partial_parse")
     f = pm.func("PartialParse.apply_rule")
     # (i) the new production is prefix + (one element,) + suffix
-    ok = False
+    ok = None
     where = pm.where(f)
+    # local names bound once (also element-wise: a, b = x, y) stand for their expressions
+    defs = {}
+    for a in ast.walk(f):
+        if isinstance(a, ast.Assign) and len(a.targets) == 1:
+            t = a.targets[0]
+            if isinstance(t, ast.Name):
+                defs.setdefault(t.id, []).append(a.value)
+            elif isinstance(t, ast.Tuple) and isinstance(a.value, ast.Tuple) and len(t.elts) == len(a.value.elts):
+                for tt, vv in zip(t.elts, a.value.elts):
+                    if isinstance(tt, ast.Name):
+                        defs.setdefault(tt.id, []).append(vv)
+
+    def resolve(p, depth=0):
+        while isinstance(p, ast.Name) and len(defs.get(p.id, [])) == 1 and depth < 4:
+            p = defs[p.id][0]
+            depth += 1
+        return p
     for c in calls_in(f, "PartialParse"):
         for k in c.keywords:
             if k.arg == "prod":
-                e = k.value
-                parts = _concat_parts(e)
+                e = resolve(k.value)
+                parts = [resolve(p) for p in _concat_parts(e)]
                 singles = [p for p in parts if isinstance(p, ast.Tuple) and len(p.elts) == 1]
                 slices = [p for p in parts if isinstance(p, ast.Subscript) and isinstance(p.slice, ast.Slice)]
-                ok = len(singles) == 1 and len(slices) == 2 and len(parts) == 3
+                unknown = [p for p in parts if p not in singles and p not in slices]
+                if unknown and all(isinstance(p, (ast.Name, ast.Call, ast.Attribute)) for p in unknown):
+                    ok = None       # built from something this clause does not follow
+                else:
+                    ok = len(singles) == 1 and len(slices) == 2 and len(parts) == 3
                 where = pm.where(c)
-    rep.add("termination", pm.rel + "::PartialParse.apply_rule::window->one", where, ok,
-            "" if ok else "the production is no longer prefix + (result,) + suffix")
+    if ok is None:
+        rep.undecided("termination", pm.rel + "::PartialParse.apply_rule::window->one", where,
+                      "the new production is not written as prefix + (result,) + suffix over slices; "
+                      "not recognised")
+    else:
+        rep.add("termination", pm.rel + "::PartialParse.apply_rule::window->one", where, ok,
+                "" if ok else "the production is no longer prefix + (result,) + suffix")
     # (ii) unary rules: acyclic feed graph
     unary = {r.name for r in ctx.rb.rules if len(r.pats) == 1 and r.pats[0].kind != "regex"}
     g = {}
@@ -349,8 +375,20 @@ def _termination(ctx, rep, eng):
                     if isinstance(lo, ast.BinOp) and isinstance(lo.op, ast.Add) and \
                             isinstance(lo.right, ast.Constant) and lo.right.value >= 1:
                         ok = True
-    rep.add("termination", cm.rel + "::_regex_stack::strictly-increasing", cm.where(f), ok,
-            "" if ok else "sequence enumeration no longer extends with strictly larger indices")
+    if ok:
+        rep.ok("termination", cm.rel + "::_regex_stack::strictly-increasing", cm.where(f))
+    else:
+        # a range that starts at or below the last index is the violation; an enumeration written
+        # some other way is not recognised
+        ranges = [loop for w in ast.walk(f) if isinstance(w, ast.While) for loop in ast.walk(w)
+                  if isinstance(loop, (ast.For, ast.comprehension)) and isinstance(loop.iter, ast.Call)
+                  and e1.callee_name(loop.iter.func) == "range" and len(loop.iter.args) >= 2]
+        if ranges:
+            rep.violated("termination", cm.rel + "::_regex_stack::strictly-increasing", cm.where(f),
+                         "sequence enumeration no longer extends with strictly larger indices")
+        else:
+            rep.undecided("termination", cm.rel + "::_regex_stack::strictly-increasing", cm.where(f),
+                          "the enumeration of extensions is not a range over larger indices; not recognised")
 
 
 def _concat_parts(e):
